@@ -176,6 +176,7 @@ fn main() {
                 "C14" => {
                     drop(emit_serve);
                     histories::gen_c14(&mut rng, thorough, &mut cases, &mut meta, &prop);
+                    histories::gen_c14_boundary(thorough, &mut cases, &mut meta, &prop, 0);
                 }
                 "C15" => {
                     drop(emit_serve);
